@@ -55,6 +55,14 @@ def handle (j : Json) : Option Json := do
             ("lo", Json.arr (per r.lbx).toArray), ("hi", Json.arr (per r.ubx).toArray),
             ("clo", Json.arr (perC r.lbx).toArray), ("chi", Json.arr (perC r.ubx).toArray),
             ("dernoms", ratsJ r.derNoms)])
+  | "seedblock" =>
+      -- `x0[inds] = seed; x0[inds] /= nominal`: the block of one (member, variable); the seed is
+      -- carried in the `lo` field, fill 0 outside a seed series
+      let b ← (getObj j "blk").bind blkOfJson
+      match blockWrite b b.lo (XVal.fin 0) with
+      | none => pure (Json.str "raise")
+      | some none => pure (Json.arr #[])
+      | some (some vs) => pure (xvalsJ vs)
   | "goalobj" =>
       -- Σ weight · (f_i / nominal)^order
       let w ← getRat j "w"
